@@ -302,6 +302,43 @@ pub fn eval_main(prop: &PropDef, args: &[String]) {
     println!("R {out}");
 }
 
+/// `wfsim history <ID> <tier> <seed> <i1,i2,...,in>`: execute these runs, in this order, in ONE process (as a worker
+/// would) and print the result digest of the last one. Used to confirm and replay results that depend on what the
+/// process had executed before.
+pub fn history_main(prop: &PropDef, args: &[String]) {
+    let tier = Tier::parse(&args[0]);
+    let seed: u64 = args[1].parse().unwrap();
+    let runs: Vec<u64> = args[2].split(',').filter_map(|x| x.parse().ok()).collect();
+    crate::seams::install_process_hooks();
+    let scalar_worker = matches!(std::env::var("WIREFILTER_USE_AVX2").as_deref(), Ok("0") | Ok("no") | Ok("false"));
+    let reverse_order = std::env::var_os("WFSIM_REVERSE").is_some();
+    let mut last = None;
+    for i in runs {
+        let ctx = RunCtx { tier, run: i, seed, scalar_worker, reverse_order, want_sample: false };
+        let rec = execute(prop, &ctx, Mode::Search { seed: rng::mix(seed, prop.id, i), forced: forced_for(prop, i) }, false);
+        last = rec.result_digest;
+    }
+    println!("H {}", last.map(|d| format!("{d:016x}")).unwrap_or_else(|| "none".into()));
+}
+
+fn history_digest(prop: &PropDef, tier: Tier, seed: u64, scalar: bool, reverse: bool, runs: &[u64]) -> Option<String> {
+    let list = runs.iter().map(|r| r.to_string()).collect::<Vec<_>>().join(",");
+    let mut cmd = Command::new(exe());
+    cmd.arg("history").arg(prop.id).arg(tier.name()).arg(seed.to_string()).arg(list);
+    if scalar {
+        cmd.env("WIREFILTER_USE_AVX2", "0");
+    } else {
+        cmd.env_remove("WIREFILTER_USE_AVX2");
+    }
+    if reverse {
+        cmd.env("WFSIM_REVERSE", "1");
+    } else {
+        cmd.env_remove("WFSIM_REVERSE");
+    }
+    let out = cmd.stderr(Stdio::null()).output().ok()?;
+    String::from_utf8_lossy(&out.stdout).lines().find_map(|l| l.strip_prefix("H ").map(|s| s.trim().to_string()))
+}
+
 struct EvalOut {
     signature: Option<String>,
     detail: String,
@@ -811,6 +848,53 @@ pub fn driver_main(prop: &PropDef, tier: Tier) -> i32 {
             }
             None => cross_unconfirmed += 1,
         }
+    }
+    // ---- restart differential: a sample of the runs is re-executed alone in a fresh process; the result must be
+    // what the long-lived worker computed (results must not depend on what the process executed before). A
+    // difference is confirmed by replaying the worker's history in one fresh process, then the history is shortened.
+    let mut restart_checked = 0u64;
+    let mut restart_found = 0u64;
+    if !run_digests[0].is_empty() {
+        let all: Vec<(u64, u64)> = run_digests[0].iter().map(|(a, b)| (*a, *b)).collect();
+        let want = 24usize.min(all.len());
+        let (first0, stride0) = if prop.env_groups && nworkers >= 2 { (0u64, nworkers / 2) } else { (0u64, nworkers) };
+        let _ = first0;
+        for k in 0..want {
+            let (run, worker_digest) = all[(all.len() - 1) * k / want.max(1)];
+            let alone = eval_tape(prop, tier, false, run, seed, None, false).result_digest;
+            restart_checked += 1;
+            if alone.as_deref() == Some(format!("{worker_digest:016x}").as_str()) || restart_found >= 2 {
+                continue;
+            }
+            // the worker that executed `run` executed run % stride, + stride, ... before it
+            let stride = stride0.max(1);
+            let mut history: Vec<u64> = (0..).map(|j| run % stride + j * stride).take_while(|x| *x <= run).collect();
+            let with_history = history_digest(prop, tier, seed, false, false, &history);
+            if with_history == alone {
+                cross_unconfirmed += 1;
+                continue;
+            }
+            // shorten: keep only the last k predecessors while the difference persists
+            let mut keep = 1usize;
+            while keep < history.len() {
+                let cand: Vec<u64> = history[history.len() - 1 - keep..].to_vec();
+                if history_digest(prop, tier, seed, false, false, &cand) != alone {
+                    history = cand;
+                    break;
+                }
+                keep *= 2;
+            }
+            restart_found += 1;
+            let list = history.iter().map(|r| r.to_string()).collect::<Vec<_>>().join(",");
+            let cmd = format!("a=$({exe} history {id} {t} {seed} {run} | cut -c3-); b=$({exe} history {id} {t} {seed} {list} | cut -c3-); echo alone=$a after-history=$b; test \"$a\" = \"$b\"", exe = exe().display(), id = prop.id, t = tier.name());
+            extra_viol.push((
+                Violation::new(&format!("{}/result-differs-across-processes", prop.id), "depends-on-process-history", format!("run {run}: alone in a fresh process {alone:?}, after runs {list} in the same process {with_history:?}")),
+                json!({"format": 1, "property": prop.id, "engine": prop.engine, "seed": seed, "run": run, "tier": tier.name(), "cmd": cmd,
+                       "signature": {"invariant": format!("{}/result-differs-across-processes", prop.id), "class": "depends-on-process-history", "detail": format!("alone {alone:?} vs after history {with_history:?}")},
+                       "trace": [format!("run {run} computes {alone:?} when executed alone in a fresh process and {with_history:?} when the same process executed runs [{list}] first (history shortened from the worker's full sequence)")]}),
+            ));
+        }
+        extra_cov.insert("restart_differential".into(), json!({"runs_reexecuted_alone_in_fresh_processes": restart_checked, "history_dependent_results": restart_found}));
     }
     if cross_compared > 0 {
         extra_cov.insert("cross_process".into(), json!({"runs_compared_between_paired_workers": cross_compared, "differences_confirmed_in_fresh_processes": cross_found, "differences_not_reproduced_in_fresh_processes": cross_unconfirmed,
